@@ -809,6 +809,48 @@ pub fn run_case<W: World>(w: &mut W, g: &Group, sp: usize, st: &mut Stats) -> Ve
     }
     drop(acts);
 
+    // moves: wherever the link is found afterwards, readlink and readlink_abs still describe one place
+    // (what that place is after a move is C09's business; here only the law that ties the two together)
+    {
+        let top = if prefix == "/" { String::new() } else { prefix.trim_end_matches('/').to_string() };
+        let mut moves: Vec<(String, String, String, String)> = vec![("move_p(link, link_r)".to_string(), abs_l.clone(), format!("{}_r", abs_l), format!("{}_r", abs_l))];
+        let mut anc = parent_of(&abs_l);
+        let mut tail = format!("/{}", base_of(&abs_l));
+        let mut level = 1;
+        while anc.len() > top.len() && anc != "/" {
+            moves.push((format!("move_p(ancestor {} of link, .._r)", level), anc.clone(), format!("{}_r", anc), format!("{}_r{}", anc, tail)));
+            tail = format!("/{}{}", base_of(&anc), tail);
+            anc = parent_of(&anc);
+            level += 1;
+        }
+        for (form, from, to, new_l) in moves {
+            fresh(w, &mut r);
+            let op = "link law after move_p";
+            match r.call(op, || w.fs().move_p(&from, &to)) {
+                Some(Ok(_)) => {},
+                _ => continue,
+            }
+            let fs = w.fs();
+            let (Some(ra), Some(rl)) = (r.call(op, || fs.readlink_abs(&new_l)), r.call(op, || fs.readlink(&new_l))) else { continue };
+            match (&ra, &rl) {
+                (Ok(a), Ok(t)) => {
+                    let text = ps(t);
+                    let nav = go_clean(&format!("{}/{}", parent_of(&new_l), text));
+                    if text.starts_with('/') {
+                        r.bad(op, "readlink result is not a relative path", format!("{}: readlink({}) = {:?}", form, new_l, text));
+                    } else if nav != ps(a) {
+                        r.bad(op, "clean(dir(link)/readlink) != readlink_abs", format!("{}: readlink({}) = {:?} navigates to {:?} but readlink_abs gives {:?}", form, new_l, text, nav, ps(a)));
+                    }
+                },
+                _ => r.bad(op, "readlink / readlink_abs fail on the moved link", format!("{}: readlink_abs({}) = {}, readlink = {}", form, new_l, res_str(&ra), res_str(&rl))),
+            }
+            let v = r.call(op, || fs.is_symlink(&new_l));
+            if v == Some(false) {
+                r.bad(op, "is_symlink is false", format!("{}: is_symlink({}) = false", form, new_l));
+            }
+        }
+    }
+
     // symlink over the existing link
     for (t2, k2) in [(ZF, TK::File), (ZD, TK::Dir), (ZM, TK::Missing)] {
         fresh(w, &mut r);
@@ -1075,7 +1117,7 @@ pub fn run(ctx: &Ctx) -> i32 {
         ("evaluations", J::i(states)),
         ("distinct_nontrivial", J::i(nontriv.len() as i64)),
         ("rule", J::s(format!(
-            "positions = all {} paths of depth <= {} over names {{a,b}}; targets = positions + root; every feasible (L, T, kind at creation) configuration ({} configurations over {} (L,T) pairs) x 6 spellings of the target = {} states per world, 3 worlds (memfs@/, stdfs@sandbox, memfs@sandbox). Each state: symlink + all queries of the statement + readlink*/entry on every non-link; then 10 follow-up transitions each from a fresh copy of the state (remove, chmod x2, chown x2 without follow, the same chown x2 after the target itself was given the requested owner, symlink over the link x3). distinct_nontrivial = (L,T) pairs whose relative navigation from dir(L) to T contains '..' or more than one component or is empty (target == dir(link)), i.e. the link is not next to its target.",
+            "positions = all {} paths of depth <= {} over names {{a,b}}; targets = positions + root; every feasible (L, T, kind at creation) configuration ({} configurations over {} (L,T) pairs) x 6 spellings of the target = {} states per world, 3 worlds (memfs@/, stdfs@sandbox, memfs@sandbox). Each state: symlink + all queries of the statement + readlink*/entry on every non-link; then up to 13 follow-up transitions each from a fresh copy of the state (remove, chmod x2, chown x2 without follow, the same chown x2 after the target itself was given the requested owner, move_p of the link and of each of its ancestor directories to a new name with the readlink/readlink_abs law checked where the link is found afterwards, symlink over the link x3). distinct_nontrivial = (L,T) pairs whose relative navigation from dir(L) to T contains '..' or more than one component or is empty (target == dir(link)), i.e. the link is not next to its target.",
             tree::namespace(&NAMES, depth).len(), depth, n, pairs.len(), expect_states
         ))),
         ("per_world", J::obj([
